@@ -41,6 +41,10 @@ RECURSIVE DepthOf(_, _, _)
 DepthOf(h, n, fuel) == IF n = 1 \/ fuel = 0 THEN 0
     ELSE 1 + DepthOf(h, CHOOSE p \in DOMAIN h : n \in Kids(h, p), fuel - 1)
 
+(* nothing is left of node n once every leaf 1 and every container emptied that way is gone (trees: fuel never runs out) *)
+RECURSIVE Emptied(_, _, _)
+Emptied(h, n, fuel) == fuel > 0 /\ \A i \in 1..Len(h[n].items) :
+                          LET it == h[n].items[i] IN IF it.s THEN it.v = 1 ELSE Emptied(h, it.v, fuel - 1)
 (* ---- visit programs: result [keep, k, s, v] ---- *)
 Keep(it) == [keep |-> TRUE, k |-> it.k, s |-> it.s, v |-> it.v]
 Drop(it) == [keep |-> FALSE, k |-> it.k, s |-> it.s, v |-> it.v]
@@ -53,6 +57,10 @@ Visit(prog, h, n, it) ==
     [] prog = 5 -> IF ~it.s /\ h[it.v].kind = "list" THEN Drop(it) ELSE Keep(it)   \* drop containers of one kind
     [] prog = 6 -> Keep(it)                                                     \* visit returns True
     [] prog = 7 -> IF DepthOf(h, n, 8) = 1 THEN Drop(it) ELSE Keep(it)          \* path dependent: drop what hangs two levels down
+    (* looks INSIDE the rebuilt child (trees only): leaf 1 goes, then every container that ended up empty goes with it *)
+    [] prog = 8 -> IF it.s THEN (IF it.v = 1 THEN Drop(it) ELSE Keep(it)) ELSE IF Emptied(h, it.v, 8) THEN Drop(it) ELSE Keep(it)
+    (* all three kinds of answer in one callback: False for leaf 1, a rewritten pair for leaf 2, True otherwise *)
+    [] prog = 9 -> IF it.s /\ it.v = 1 THEN Drop(it) ELSE IF it.s /\ it.v = 2 THEN [keep |-> TRUE, k |-> it.k, s |-> TRUE, v |-> 12] ELSE Keep(it)
     [] OTHER -> Keep(it)
 
 (* the rebuilt node: same kind, visited items in order; positions are renumbered for the positional kinds *)
